@@ -2,6 +2,8 @@ import Pokerface.Proofs.BetsMono
 import Pokerface.Proofs.BetsPhase
 import Pokerface.Proofs.BetsExamples
 import Pokerface.Proofs.RaiseGhost
+import Pokerface.Proofs.GapsABets
+import Pokerface.Proofs.GapsAPots
 /-
   C12 — Raise sizes obey the minimum-raise rule and amounts cannot corrupt chips.
   Setting as in C11 (`AtTurn g p`); `x` is the amount argument of `Raise(x)` / `Bet(x)`,
@@ -399,5 +401,190 @@ example :
         .act none .pass 0, .act none .pass 0, .act none .raise 14]
      (r.1.cw, r.1.prev, r.2.lastRaise, r.1.players[3]?.map fun q => (q.stack, q.wager)) = (995, 995, 995, some (0, 995))) := by
   decide
+
+/-! ## Unconditional forms of the raise clauses (gaps found by review)
+
+  `raise_exact`, `raise_undersized` and `raise_over_stack` carry the hypothesis `hr : Act.raise ∈ p.allowed`.  The
+  property text has no such hypothesis, and the numeric hypotheses do not imply it (`exNotOffered` below: the
+  minimum bet is the dealer blind 100, the big blind seat holds 50 and is offered all-in and check only).  The
+  theorems below say exactly when raise is offered, and what `Raise(x)` does in EVERY case. -/
+
+/-- (a) When raise is offered: for a player to act who has not folded and has chips, raise is in the offered
+    list exactly when a wager stands that the player is behind and holds more than wager-to-match + minimum raise,
+    or a wager stands that the player is level with and the player holds at least the minimum bet (the exact
+    branch conditions of `GetAvailableActions`). -/
+theorem raise_offered_iff {g : Game} {p : Player} (h : AtTurn g p) (hf : p.fold = false) (hs : p.stack ≠ 0) :
+    Act.raise ∈ p.allowed ↔
+      (p.wager < g.cw ∧ p.initial > g.cw + g.prev) ∨ (p.wager = g.cw ∧ p.initial ≥ g.miniBet ∧ g.cw ≠ 0) := by
+  rw [h.allowed_eq]
+  obtain ⟨_, _, _, _, _, _, _, m7⟩ := avail_mem (g := g) hf hs
+  have hwle := h.chips.wle p h.mem
+  have hprev := h.chips.prev0
+  rw [m7]
+  constructor
+  · rintro (⟨a, b, _⟩ | ⟨a, b, c⟩)
+    · exact Or.inl ⟨a, b⟩
+    · exact Or.inr ⟨by omega, b, c⟩
+  · rintro (⟨a, b⟩ | ⟨a, b, c⟩)
+    · exact Or.inl ⟨a, b, by omega⟩
+    · exact Or.inr ⟨by omega, b, c⟩
+
+/-- … and a folded or all-in seat is never offered raise. -/
+theorem raise_not_offered_passive {g : Game} {p : Player} (h : AtTurn g p) (hp : p.fold = true ∨ p.stack = 0) :
+    Act.raise ∉ p.allowed := by
+  rw [h.allowed_eq, avail_pass_only g p hp]; simp
+
+/-- (e) When raise is NOT offered to the player to act, `Raise(x)` is refused with `ErrInvalidAction` and the state
+    is returned exactly as it was — for every amount `x` and every seat designation. -/
+theorem raise_not_offered_refused {g : Game} {p : Player} (h : AtTurn g p) (hr : Act.raise ∉ p.allowed)
+    (seat : Option Nat) (x : Int) : g.step (.act seat .raise x) = (g, some .invalidAction) :=
+  step_not_offered h hr seat x
+
+/-- … and so is `Raise(x)` addressed to any seat other than the one to act (C04). -/
+theorem raise_other_seat_refused {g : Game} (h : Reachable g) {seat : Option Nat} (hs : ¬ ByCur g seat) (x : Int) :
+    g.step (.act seat .raise x) = (g, some .invalidAction) :=
+  step_other_seat (inv_reachable h) hs .raise x
+
+/-- (e) First sentence, first half, WITHOUT assuming that raise is offered: in no-limit play, at any decision point,
+    a raise request by the player to act to a level `x` with `cw < x < p.initial` and `x − cw ≥ prev` is either
+    carried out exactly (accepted; `x` is the new wager to match and the raiser's wager, the raiser is the last
+    raiser, `x − cw` the new minimum) — this is the case exactly when raise is offered (`raise_offered_iff`) — or,
+    when raise is not offered, refused with `ErrInvalidAction` leaving the state untouched.  Nothing else can
+    happen. -/
+theorem raise_exact_unconditional {g : Game} {p : Player} (h : AtTurn g p) (hnl : g.opts.potLimit = false)
+    {seat : Option Nat} (hs : ByCur g seat) {x : Int} (hx1 : g.cw < x) (hx2 : x < p.initial) (hx3 : x - g.cw ≥ g.prev) :
+    (Act.raise ∈ p.allowed ∧
+      (g.step (.act seat .raise x)).2 = none ∧ (g.step (.act seat .raise x)).1.cw = x ∧
+      (g.step (.act seat .raise x)).1.raiser = g.cur ∧ (g.step (.act seat .raise x)).1.prev = x - g.cw ∧
+      ∃ q, (g.step (.act seat .raise x)).1.players[g.cur]? = some q ∧ q.wager = x ∧
+        q.stack = p.initial - x ∧ q.pot = p.pot ∧ q.bankroll = p.bankroll) ∨
+    (Act.raise ∉ p.allowed ∧ g.step (.act seat .raise x) = (g, some .invalidAction)) := by
+  by_cases hr : Act.raise ∈ p.allowed
+  · exact Or.inl ⟨hr, raise_exact h hnl hr hs hx1 hx2 hx3⟩
+  · exact Or.inr ⟨hr, raise_not_offered_refused h hr seat x⟩
+
+/-- (b) First sentence, second half, WITHOUT assuming that raise is offered and for EVERY seat designation: at any
+    decision point, for any level `x` above the wager to match that would lift it by less than the previous bet or
+    raise (`cw < x`, `x − cw < prev`), `Raise(x)` is either refused with the state returned exactly as it was, or
+    accepted and carried out as an all-in of the player to act (stack 0, the whole round-start stack wagered, the
+    wager to match becoming that amount if it is larger) — never as an undersized raise.  The second alternative
+    occurs exactly when the request is addressed to the seat to act and raise is offered. -/
+theorem raise_undersized_unconditional {g : Game} {p : Player} (h : AtTurn g p) (seat : Option Nat) {x : Int}
+    (hx1 : g.cw < x) (hx3 : x - g.cw < g.prev) :
+    (g.step (.act seat .raise x) = (g, some .invalidAction) ∧ ¬ (ByCur g seat ∧ Act.raise ∈ p.allowed)) ∨
+    ((ByCur g seat ∧ Act.raise ∈ p.allowed) ∧ (g.step (.act seat .raise x)).2 = none ∧
+      (g.step (.act seat .raise x)).1.cw = (if p.initial > g.cw then p.initial else g.cw) ∧
+      ∃ q, (g.step (.act seat .raise x)).1.players[g.cur]? = some q ∧ q.stack = 0 ∧ q.wager = p.initial) := by
+  by_cases hs : ByCur g seat
+  · by_cases hr : Act.raise ∈ p.allowed
+    · right
+      refine ⟨⟨hs, hr⟩, ?_⟩
+      rw [h.allowed_eq] at hr
+      rw [step_byCur hs, act_raise_dispatch h hr hx1, if_pos (Or.inr hx3)]
+      obtain ⟨q, hq, e1, e2, _, _, _, e6⟩ := doAllin_effect h
+      exact ⟨rfl, e6, q, hq, e1, e2⟩
+    · exact Or.inl ⟨raise_not_offered_refused h hr seat x, fun c => hr c.2⟩
+  · exact Or.inl ⟨raise_other_seat_refused h.reach hs x, fun c => hs c.1⟩
+
+/-- the same in the property's own words: put all-in, or refused — in every case -/
+theorem raise_undersized_never {g : Game} {p : Player} (h : AtTurn g p) (seat : Option Nat) {x : Int}
+    (hx1 : g.cw < x) (hx3 : x - g.cw < g.prev) :
+    (∃ q, (g.step (.act seat .raise x)).1.players[g.cur]? = some q ∧ q.stack = 0 ∧ q.wager = p.initial) ∨
+    ((g.step (.act seat .raise x)).2 ≠ none ∧ (g.step (.act seat .raise x)).1 = g) := by
+  rcases raise_undersized_unconditional h seat hx1 hx3 with ⟨e, _⟩ | ⟨_, _, _, hq⟩
+  · exact Or.inr (by rw [e]; exact ⟨by simp, rfl⟩)
+  · exact Or.inl hq
+
+/-- (c) The boundary `x = cw` (neither "below the current wager" nor a lift): `Raise(cw)` by the player to act is
+    carried out EXACTLY as `Call` — same resulting state, same (absent) error — when both raise and call are
+    offered, i.e. when the player is behind the wager to match and holds more than wager-to-match + minimum raise;
+    in every other case (raise not offered; or raise offered to a player who is level with the wager to match,
+    who is not offered call) it is refused with `ErrInvalidAction` and the state is returned as it was.
+    (`effect_call` of C11 then says what the call does.)  -/
+theorem raise_to_current {g : Game} {p : Player} (h : AtTurn g p) {seat : Option Nat} (hs : ByCur g seat) :
+    (Act.raise ∈ p.allowed ∧ Act.call ∈ p.allowed →
+      ∀ y : Int, g.step (.act seat .raise g.cw) = g.step (.act seat .call y) ∧ (g.step (.act seat .call y)).2 = none) ∧
+    (¬ (Act.raise ∈ p.allowed ∧ Act.call ∈ p.allowed) →
+      g.step (.act seat .raise g.cw) = (g, some .invalidAction)) := by
+  constructor
+  · rintro ⟨hr, hc⟩ y
+    rw [h.allowed_eq] at hr hc
+    rw [step_byCur hs, step_byCur hs]
+    exact ⟨act_raise_cw_eq_call h hr hc y, act_accepted_of_allows y (h.allows_of hc) (by simp) (by simp)⟩
+  · intro hn
+    by_cases hr : Act.raise ∈ p.allowed
+    · have hc : Act.call ∉ p.allowed := fun hc => hn ⟨hr, hc⟩
+      rw [h.allowed_eq] at hr hc
+      rw [step_byCur hs]
+      exact act_raise_cw_no_call h hr hc
+    · exact raise_not_offered_refused h hr seat g.cw
+
+/-- when both are offered (companion to `raise_to_current`): exactly the first raise situation -/
+theorem raise_and_call_offered_iff {g : Game} {p : Player} (h : AtTurn g p) (hf : p.fold = false) (hs : p.stack ≠ 0) :
+    (Act.raise ∈ p.allowed ∧ Act.call ∈ p.allowed) ↔ (p.wager < g.cw ∧ p.initial > g.cw + g.prev) := by
+  rw [raise_offered_iff h hf hs, h.allowed_eq]
+  obtain ⟨_, _, _, _, _, m5, _, _⟩ := avail_mem (g := g) hf hs
+  have hprev := h.chips.prev0
+  rw [m5]
+  constructor
+  · rintro ⟨(a | ⟨a, _, _⟩), b, _⟩
+    · exact a
+    · omega
+  · rintro ⟨a, b⟩
+    exact ⟨Or.inl ⟨a, b⟩, a, by omega⟩
+
+/-- (d) Last sentence, "… can make a wager, stack or POT negative": after EVERY operation on every reachable state —
+    any action by any seat with any integer amount, accepted or refused — every published pot (`Status.Pots`) has a
+    non-negative total.  (The pots are only rewritten by `updatePots`, from per-player totals `pot + wager ≥ 0`;
+    C16 `pot_total`.) -/
+theorem pots_nonneg {g : Game} (h : Reachable g) (op : Op) : ∀ pt ∈ (g.step op).1.pots, 0 ≤ pt.total :=
+  pn_reachable (h.step op)
+
+/-- `pots_nonneg` with the amount spelled out, together with the per-player pot accounts (`amounts_safe`) -/
+theorem pots_nonneg_act {g : Game} (h : Reachable g) (seat : Option Nat) (a : Act) (x : Int) :
+    (∀ pt ∈ (g.step (.act seat a x)).1.pots, 0 ≤ pt.total) ∧ (∀ q ∈ (g.step (.act seat a x)).1.players, 0 ≤ q.pot) :=
+  ⟨pots_nonneg h _, fun q hq => (amounts_safe_act h seat a x q hq).2.2.1⟩
+
+/-! ### Non-vacuity -/
+
+/-- The reviewer's witness: dealer blind 100 > big blind 10, so the minimum bet is 100; the dealer (8 chips) is all-in
+    on the blind, the small blind calls, the big blind seat (50 chips, 10 posted) is level with the wager to match and
+    holds less than the minimum bet: it is offered all-in and check only. -/
+def exNotOffered : Game :=
+  (start (Ex.cfg (Ex.opts 0 100 5 10) 8 1000 50)).1.run [.ready, .payBlinds, .ready, .act none .pass 0, .act none .call 0]
+
+theorem exNotOffered_reach : Reachable exNotOffered := reachable_run ⟨Ex.optsOK _ _ _ _ (by decide)⟩ (by decide) _
+
+/-- The numeric hypotheses of `raise_exact` hold for `Raise(30)` (`10 < 30 < 50`, `30 − 10 ≥ 10`, no-limit) but raise
+    is not offered: the request is refused with `ErrInvalidAction` and nothing changes (`raise_exact_unconditional`,
+    second alternative).  `Raise(15)` — an undersized request — is refused likewise (`raise_undersized_unconditional`,
+    first alternative). -/
+example : AtTurn exNotOffered (exNotOffered.players[2]) ∧ exNotOffered.opts.potLimit = false ∧
+    (exNotOffered.cw, exNotOffered.prev, exNotOffered.miniBet, (exNotOffered.players[2]).initial,
+      (exNotOffered.players[2]).wager) = (10, 10, 100, 50, 10) ∧
+    (exNotOffered.players[2]).allowed = [.allin, .check] ∧
+    exNotOffered.step (.act none .raise 30) = (exNotOffered, some .invalidAction) ∧
+    exNotOffered.step (.act none .raise 15) = (exNotOffered, some .invalidAction) :=
+  ⟨⟨exNotOffered_reach, by decide, rfl⟩, by decide, by decide, by decide,
+   raise_not_offered_refused ⟨exNotOffered_reach, by decide, rfl⟩ (by decide) none 30,
+   raise_not_offered_refused ⟨exNotOffered_reach, by decide, rfl⟩ (by decide) none 15⟩
+
+/-- `raise_to_current` at `Ex.g4` (seat 2 faces a bet of 30, both raise and call offered): `Raise(30)` is the call;
+    at the big blind's option (`Ex.g1` after two calls: raise offered, call not) `Raise(10)` is refused. -/
+example : Act.raise ∈ (Ex.g4.players[2]).allowed ∧ Act.call ∈ (Ex.g4.players[2]).allowed ∧ Ex.g4.cw = 30 ∧
+    (Ex.g4.step (.act none .raise 30)).2 = none ∧
+    ((Ex.g4.step (.act none .raise 30)).1.players[2]?.map fun q => (q.stack, q.wager)) = some (960, 30) ∧
+    (Ex.g4.step (.act none .raise 30)).1.prev = 30 := by decide
+example : let g := Ex.g1.run [.act none .call 0, .act none .call 0]
+    AtTurn g (g.players[2]) ∧ Act.raise ∈ (g.players[2]).allowed ∧ Act.call ∉ (g.players[2]).allowed ∧ g.cw = 10 ∧
+    (g.step (.act none .raise 10)).2 = some .invalidAction :=
+  ⟨⟨Ex.reach_g1.run _, by decide, rfl⟩, by decide, by decide, by decide, by decide⟩
+
+/-- `pots_nonneg`: while the flop round of `exGhost` is played the pot of the preflop round (30) stays published —
+    also after a refused `Bet(-7)` —, and when the round closes (call, pass of the all-in seat) one pot of 300 is -/
+example : (((start exGhost).1.run exGhostOps).pots.map (·.total)) = [30] ∧
+    (((start exGhost).1.run (exGhostOps ++ [.act none .bet (-7)])).pots.map (·.total)) = [30] ∧
+    (((start exGhost).1.run (exGhostOps ++ [.act none .call 0, .act none .pass 0])).pots.map (·.total)) = [300] ∧
+    ((start exGhost).1.run (exGhostOps ++ [.act none .call 0, .act none .pass 0])).event = .roundClosed := by decide
 
 end Pokerface.C12
